@@ -285,6 +285,16 @@ func RandValue(r *fw.Rand) string {
 	case 5:
 		return "Żółć 名前 " + fmt.Sprint(r.Intn(100)) + " ñ"
 	case 6:
+		// now and then a line around the sizes at which readers and scanners
+		// change their behaviour (4 KiB and 64 KiB buffers), rarely 1 MiB
+		if r.Chance(1, 50) {
+			n := []int{4070, 4090, 4096, 4100, 8192, 16384, 65500, 65536, 65600, 100000}[r.Intn(10)]
+			if r.Chance(1, 40) {
+				n = 1 << 20
+			}
+			b := []byte(strings.Repeat("long value 1 NOTE x ", n/20+1))[:n]
+			return strings.TrimSpace(string(b)) + "end"
+		}
 		return strings.Repeat("long value ", 5+r.Intn(40)) + "end"
 	case 7:
 		return fmt.Sprint(r.Intn(100000))
